@@ -384,4 +384,46 @@ def treeGgswEncryptSk (be : BE) (n : Nat) (k : K) : AllocTree :=
           (.alt (treeEncSkInternal be n k.size cols false)
             (loop k.rankOut (treeEncSkInternal be n k.size cols true))))))
 
+/-! ### poulpy-bin-fhe -/
+
+/-- cmux_tmp_bytes(res, a, selector) -/
+def tbCmux (be : BE) (n : Nat) (a : G) (k : K) : Nat :=
+  dftBytes be n (k.rankOut + 1) k.size + max (tbExtInternal be n a k) (bigNormTmp be n)
+
+/-- `cmux(res, t, f, s)`: no entry assertion; `take_vec_znx_dft(res.rank+1, s.size)`, then
+`glwe_external_product_internal(res_dft, res, s)` and the normalize loop on `scratch_1` -/
+def treeCmux (be : BE) (n : Nat) (res : G) (k : K) : AllocTree :=
+  .take (dftBytes be n (res.rank + 1) k.size)
+    (.alt (treeExtInternal be n (res.rank + 1) res k) (loop (res.rank + 1) (treeBigNormalize be n)))
+
+/-- execute_bdd_circuit_tmp_bytes(res, state_size, ggsw): per-thread size -/
+def tbExecBdd (be : BE) (n state : Nat) (res : G) (k : K) : Nat :=
+  2 * state * res.bytes n + tbCmux be n res k
+
+/-- `count` consecutive takes of `bytes` (`take_glwe_slice`), then `k` -/
+def takeMany : Nat → Nat → AllocTree → AllocTree
+  | 0, _, k => k
+  | c + 1, bytes, k => .take bytes (takeMany c bytes k)
+
+/-- `eval_level`: `take_glwe_slice(2·state, res)`, then every `cmux` of every level on `scratch_1` -/
+def treeEvalLevel (be : BE) (n state : Nat) (res : G) (k : K) : AllocTree :=
+  takeMany (2 * state) (res.bytes n) (treeCmux be n res k)
+
+/-- `execute_bdd_circuit_multi_thread(threads, ..)`: assertion `available() ≥ threads · per_thread`,
+`split_mut(threads, per_thread)`, one `eval_level` sequence per window -/
+def treeExecBdd (be : BE) (n threads state : Nat) (res : G) (k : K) : AllocTree :=
+  .need (threads * tbExecBdd be n state res k)
+    (.par threads (tbExecBdd be n state res k) (treeEvalLevel be n state res k) .done)
+
+/-! ### poulpy-ckks
+* `ckks_add`, `ckks_sub`, `ckks_add_pt_const`, `ckks_sub_pt_const`: `glwe_shift_tmp_bytes.max(glwe_normalize_tmp_bytes)`
+  (`ckks_sub` also maxes with `vec_znx_rsh_tmp_bytes`, which equals `glwe_shift_tmp_bytes`);
+* `ckks_neg`, `ckks_mul_pow2`, `ckks_div_pow2`, `ckks_rescale`, `ckks_align`: `glwe_shift_tmp_bytes`; their
+  bodies only call `glwe_lsh` / `glwe_lsh_assign`. -/
+def tbCkksShiftNorm (n : Nat) : Nat := max (tbGlweShift n) (tbGlweNormalize n)
+/-- any sequence of `glwe_rsh` / `glwe_lsh` / `glwe_normalize` on the same scratch -/
+def treeCkksShiftNorm (n : Nat) : AllocTree := altList [treeGlweRsh n, treeGlweLsh n, treeGlweNormalize n]
+def tbCkksShift (n : Nat) : Nat := tbGlweShift n
+def treeCkksShift (n : Nat) : AllocTree := treeGlweLsh n
+
 end Scratch
